@@ -227,6 +227,9 @@ def shard_tmpl(spec, rec):
             if r < 0.12:
                 # the same template STRING compiled for two different template names / origins (relative include)
                 hist.append(["ctrel", rng.randrange(2)])
+            elif r < 0.22:
+                # the same template STRING compiled for two Engine INSTANCES of one class with different options
+                hist.append(["cteng", rng.randrange(2)])
             elif r < 0.55:
                 hist.append(["ct", rng.randrange(ntem)])
             elif r < 0.95:
@@ -261,6 +264,9 @@ def run_tmpl_case(case, rec):
 
     boot.LOCMEM.update({"c18dir0/inc.html": "INC-ZERO", "c18dir1/inc.html": "INC-ONE"})
     engine = engines["django"].engine
+    from django.template import Engine
+
+    two_engines = [Engine(string_if_invalid="<e0>"), Engine(string_if_invalid="<e1>")]
     size, ntem, tag = case["size"], case["ntem"], case["tag"]
     srcs = [f"<b>T{i}-{tag} {{{{ v }}}} {{% if v %}}y{i}{{% endif %}}</b>" for i in range(ntem)]
     comps = {}
@@ -280,9 +286,9 @@ def run_tmpl_case(case, rec):
                     gone.update({k: v for k, v in held.items() if v is not UNKNOWN})
                     held.clear()
                     continue
-                src = srcs[i] if op != "ctrel" else REL_SRC + f"<!--{tag}-->"
-                # the cache key covers everything the compiled Template depends on: string, template name, origin
-                mkey = (src, i) if op == "ctrel" else (src, "component") if op == "render" else src
+                src = srcs[i] if op not in ("ctrel", "cteng") else (REL_SRC if op == "ctrel" else "ENG:{{ c18_missing_var }}") + f"<!--{tag}-->"
+                # the cache key covers everything the compiled Template depends on: string, template name, origin, engine
+                mkey = (src, op, i) if op in ("ctrel", "cteng") else (src, "component") if op == "render" else src
                 was = model.get(mkey)
                 if op == "ctrel":
                     # identical source, different template name: "./inc.html" resolves relative to the name
@@ -295,6 +301,15 @@ def run_tmpl_case(case, rec):
                     rec.count("relative_include_compilations")
                     if got != exp:
                         return "cache-not-transparent", f"step {step}: cached_template({src[:30]!r}, name={nm!r}) output {got!r} != fresh {exp!r}"
+                    t2 = t
+                elif op == "cteng":
+                    t = cached_template(src, engine=two_engines[i])
+                    got = t.render(Context({"v": step}))
+                    exp = Template(src, engine=two_engines[i]).render(Context({"v": step}))
+                    rec.observe("fresh-compile-comparisons")
+                    rec.count("two_engine_compilations")
+                    if got != exp:
+                        return "cache-not-transparent", f"step {step}: cached_template({src[:30]!r}, engine=#{i}) output {got!r} != fresh {exp!r}"
                     t2 = t
                 elif op == "ct":
                     t = cached_template(src)
@@ -317,7 +332,7 @@ def run_tmpl_case(case, rec):
                 if was is None:
                     model.set(mkey, True)
                 # identity while cached (UNKNOWN = entry created by a component render)
-                if op in ("ct", "ctrel"):
+                if op in ("ct", "ctrel", "cteng"):
                     rec.observe("identity-checks")
                     prev = held.get(mkey)
                     if was is not None and prev is not None and prev is not UNKNOWN and prev is not t2:
